@@ -24,9 +24,22 @@ def run_with_tables(built, case, wd, tag, tblpath, sched=None):
 
 
 def worker(args):
+    """A case flex refuses (REJECT or variable trailing context with -Cf/-CF) or that is exempt
+    (dangerous trailing context) is replaced by the next one with the same table
+    representation and options, so that the table kinds observed do not depend on the seed."""
     chk, i, tier = args
+    out = None
+    for attempt in range(5):
+        out = worker1((chk, i, i + 132 * attempt, tier))       # 132 = lcm(11, 22, 3, 4): same variant
+        if not out.get("skipped"):
+            break
+    return out
+
+
+def worker1(args):
+    chk, i0, i, tier = args
     rng = chk.rng("case", i)
-    out = {"i": i, "problems": [], "feats": {}, "runs": 0, "inconc": []}
+    out = {"i": i0, "problems": [], "feats": {}, "runs": 0, "inconc": []}
 
     def feat(k, n=1):
         out["feats"][k] = out["feats"].get(k, 0) + n
